@@ -601,7 +601,15 @@ def _run_plan(plan, pristine_fp, yatiml_dir, yaml_dir, mount, sched, profile=Fal
                          max_steps=(PROFILE_MAX_STEPS if profile else knobs.get('max_steps', 2000000)),
                          traced=traced, on_switch=on_switch, on_yield=on_yield)
 
+    repeat = max(1, int(knobs.get('repeat') or 1))
+
     def make_body(tid, oplist):
+        if repeat > 1:
+            # a long history: the same operations over and over (count-dependent
+            # state: bounded caches, counters, "every n-th call")
+            oplist = [dict(op, file='{}r{}'.format(op.get('file', 'f'), r)) if 'file' in op else op
+                      for r in range(repeat) for op in oplist if op['op'] != 'mk' or r == 0]
+
         def body(th):
             for i, op in enumerate(oplist):
                 inv = sc.step
